@@ -172,14 +172,21 @@ def run_checks(m):
             return dict(m, error='syntax ' + str(ex))
         env = dict(os.environ, MIROS_VERIF_OUT=os.path.join(d, 'out'), MIROS_VERIF_NO_SELFTEST='1')
         fired, errors = [], []
-        for i in range(1, 33):
-            pid = 'C%02d' % i
-            r = subprocess.run([os.path.join(HERE, 'check'), pid, '--tier', 'quick', '--repo', d], capture_output=True, text=True, env=env, timeout=300)
-            if r.returncode == 1:
-                rules = sorted({ln.split(']')[0].split('[')[1] for ln in r.stdout.splitlines() if ln.strip().startswith('FINDING [')})
-                fired.append([pid, rules])
-            elif r.returncode != 0:
-                errors.append([pid, (r.stdout.strip().splitlines() or [''])[-1][:160]])
+        r = subprocess.run([os.path.join(HERE, 'check'), 'all', '--tier', 'quick', '--repo', d], capture_output=True, text=True, env=env, timeout=600)
+        pending = set()
+        for ln in r.stdout.splitlines():
+            t = ln.strip()
+            if t.startswith('FINDING ['):
+                pending.add(t.split(']')[0].split('[')[1])
+            elif t.startswith('VIOLATION property='):
+                fired.append([t.split('property=')[1].split()[0], sorted(pending)])
+                pending = set()
+            elif t.startswith('ANALYSIS-ERROR'):
+                pid = t.split('property=')[1].split()[0] if 'property=' in t else '?'
+                errors.append([pid, t[:160]])
+                pending = set()
+        if r.returncode not in (0, 1, 2):
+            errors.append(['?', 'check all rc=%s %s' % (r.returncode, r.stderr.strip()[-200:])])
         return dict(m, fired=fired, errors=errors)
     finally:
         shutil.rmtree(d, ignore_errors=True)
